@@ -1280,13 +1280,52 @@ func mapKeyName(u *types.Map) string {
 	return "map<" + types.TypeString(u.Key(), func(*types.Package) string { return "" }) + "," + types.TypeString(u.Elem(), func(*types.Package) string { return "" }) + ">"
 }
 
-func (x *Exec) mapKeyTerm(k *Value) (*Term, bool) {
+// mapKeySort is the sort map keys of type kt are indexed by: the leaf sort for a
+// scalar key, an uninterpreted "packed key" sort for a struct key.
+func (x *Exec) mapKeySort(kt types.Type) (*Sort, bool) {
+	ls := x.leavesOf(kt)
+	if len(ls) == 1 && ls[0].path == "" {
+		return ls[0].sort, true
+	}
+	if _, ok := kt.Underlying().(*types.Struct); ok && len(ls) > 0 {
+		for _, l := range ls {
+			if l.sort.Kind == SArray {
+				return nil, false
+			}
+		}
+		return UnintSort("key<" + types.TypeString(kt, func(*types.Package) string { return "" }) + ">"), true
+	}
+	return nil, false
+}
+
+// mapKeyTerm: a struct key (comparable fields only) becomes pack(f1,...,fn) of an
+// uninterpreted sort; the projections unpack_i(pack(...)) = f_i are assumed for
+// every packed term, which makes pack injective on the keys that occur.
+func (x *Exec) mapKeyTerm(st *State, u *types.Map, k *Value) (*Term, bool) {
 	if len(k.L) == 1 {
 		if t, ok := k.L[""]; ok {
 			return t, true
 		}
 	}
-	return nil, false
+	ks, ok := x.mapKeySort(u.Key())
+	if !ok || ks.Kind != SUnint || st == nil {
+		return nil, false
+	}
+	ls := x.leavesOf(u.Key())
+	args := make([]*Term, 0, len(ls))
+	for _, l := range ls {
+		t, ok := k.L[l.path]
+		if !ok || t.Sort != l.sort {
+			return nil, false
+		}
+		args = append(args, t)
+	}
+	name := ks.Name
+	pk := x.b.App("pack."+name, ks, args...)
+	for i, l := range ls {
+		x.assume(st, x.b.Eq(x.b.App("unpack."+name+"."+l.path, l.sort, pk), args[i]))
+	}
+	return pk, true
 }
 
 func (x *Exec) mapDom(st *State, u *types.Map, ks *Sort) *Term {
@@ -1294,7 +1333,7 @@ func (x *Exec) mapDom(st *State, u *types.Map, ks *Sort) *Term {
 }
 
 func (x *Exec) mapHas(st *State, m *Value, u *types.Map, k *Value) *Term {
-	kt, ok := x.mapKeyTerm(k)
+	kt, ok := x.mapKeyTerm(st, u, k)
 	if !ok {
 		x.note("map-with-composite-key")
 		return x.b.Fresh("map.has", BoolSort)
@@ -1304,7 +1343,7 @@ func (x *Exec) mapHas(st *State, m *Value, u *types.Map, k *Value) *Term {
 }
 
 func (x *Exec) mapLoad(st *State, m *Value, u *types.Map, k *Value) *Value {
-	kt, ok := x.mapKeyTerm(k)
+	kt, ok := x.mapKeyTerm(st, u, k)
 	if !ok {
 		x.note("map-with-composite-key")
 		return x.freshValue(u.Elem(), "mapval")
@@ -1328,7 +1367,7 @@ func (x *Exec) mapStore(st *State, m *Value, u *types.Map, k, val *Value, at ast
 	}
 	x.safety(st, "nilmap", at, x.b.Neq(m.scalar(), x.b.Int(0)))
 	x.setMapEmpty(st, m.scalar(), x.b.False())
-	kt, ok := x.mapKeyTerm(k)
+	kt, ok := x.mapKeyTerm(st, u, k)
 	if !ok {
 		x.note("map-with-composite-key")
 		return
@@ -1345,7 +1384,7 @@ func (x *Exec) mapStore(st *State, m *Value, u *types.Map, k, val *Value, at ast
 
 func (x *Exec) mapDelete(st *State, m *Value, u *types.Map, k *Value) {
 	x.setMapEmpty(st, m.scalar(), x.b.Fresh("map.empty", BoolSort))
-	kt, ok := x.mapKeyTerm(k)
+	kt, ok := x.mapKeyTerm(st, u, k)
 	if !ok {
 		return
 	}
@@ -1356,13 +1395,13 @@ func (x *Exec) mapDelete(st *State, m *Value, u *types.Map, k *Value) {
 
 func (x *Exec) mapInitEmpty(st *State, m *Value, u *types.Map) {
 	x.setMapEmpty(st, m.scalar(), x.b.True())
-	ks := x.leavesOf(u.Key())
-	if len(ks) != 1 {
+	ks, ok := x.mapKeySort(u.Key())
+	if !ok {
 		return
 	}
 	dk := mapKeyName(u) + ".dom"
-	domA := x.mapDom(st, u, ks[0].sort)
-	st.heap[dk] = x.b.Store(domA, m.scalar(), x.b.ConstArray(ArraySort(ks[0].sort, BoolSort), x.b.False()))
+	domA := x.mapDom(st, u, ks)
+	st.heap[dk] = x.b.Store(domA, m.scalar(), x.b.ConstArray(ArraySort(ks, BoolSort), x.b.False()))
 }
 
 // ---------- guarded-by discipline hooks (filled by ghost lock layer)
